@@ -53,6 +53,10 @@ checks = {
  "C08": ("B", "exhaustive enumeration of (stack, index value, operation) against the reference list, and of (method found by reflection, awkward value, receiver) with a no-panic / still-usable oracle",
          "Ints: complete product of stacks (kinds, lengths 0..3/4, nil-slot patterns, the four index-option settings, capacity none/Len/Len+1) x index values {MinInt, MinInt+1, MinInt/2, -Len-2..Len+2, MaxInt/2, MaxInt-1, MaxInt} x {Index, Remove, Replace, Traverse, Insert, Defrag, Swap(i,j), Less(i,j)}: results and content compared with the reference list, raw dump unchanged when the index addresses no element, stack still initialised and of the same kind; every other int-taking method found by reflection is called with extreme values. Values: every Stack/Condition method found by reflection that takes `any` or an Operator x ~55 awkward values (typed nils of every depth, zero/freed Stacks and Conditions and aliases, funcs, chans, maps, NaN/Inf, private-field structs, zero reflect.Value, empty slices) x 9 receivers, followed by 18 follow-up calls on the same instance; nothing may panic.",
          "Trusted: reference list; the awkward-value catalogue (values outside it are not covered); user methods are total.", "§3 C08"),
+
+ "C17": ("B", "exhaustive enumeration of (method found by reflection, argument tuple, receiver state) with a zero-result / still-zero oracle",
+         "Every exported method in the method sets of *Stack, *Condition and Auxiliary x argument tuples from the typed catalogue (the awkward values wherever `any` is taken) x receiver states {zero, freed, freed twice, Init()-only Condition, nil/empty Auxiliary}; every exported package-level function (table generated from /repo's sources at build time) x awkward arguments, with follow-up calls on what it returns; Reset on every nil pattern of length 0..4 x kinds x capacity x configuration variants; Free on read-only and writable instances. No panic, handle still zero (except Marshal / Condition.Init), zero results, error from Valid/IsEqual, and zero and freed instances must answer identically (differential, no hard-coded sentinel strings).",
+         "Trusted: the typed argument catalogue; sentinel strings are compared differentially only.", "§3 C17"),
 }
 not_built = {f"C{i:02d}" for i in range(1,21)} - set(checks)
 m = {
